@@ -19,6 +19,12 @@ by an archive written with numpy's own writer. After every save
   C17.npz_overwrite_decides  the two settings of `overwrite` differ exactly in that: one keeps all other
                            entries, the other none (which is which is reported in a note, not judged)
   C17.no_stats_valueerror  save before any accumulate -> ValueError, for every target kind
+
+"any accumulated data" includes coefficients that are CONSTANT over everything accumulated (a floored log-energy
+log(1e-10), a padding value): data kinds const_col / const_col32 (some columns constant, float64 / float32 features)
+and all_const / all_const32 (every column constant). Their sufficient statistics sit on the edge E[x^2] == E[x]^2
+up to rounding (either sign); apply() warns "0 variance" and uses variance 1 -- the reloaded object must do exactly
+the same (the warning is silenced locally), on every target kind and for frame counts such as 50 / 100 / 333.
 """
 import os
 import shutil
@@ -31,7 +37,11 @@ from rtc import _common
 
 PROPERTY = "C17"
 
-DATA_KINDS = ("negative", "positive", "mixed", "float32", "large", "small", "negative_large", "float32_negative")
+DATA_KINDS = ("negative", "positive", "mixed", "float32", "large", "small", "negative_large", "float32_negative",
+              "const_col", "const_col32", "all_const", "all_const32")
+CONST_KINDS = ("const_col", "const_col32", "all_const", "all_const32")
+# values a constant coefficient takes: none has an exactly representable square, so sum/N and sumsq/N really round
+CONST_VALUES = (float(np.log(1e-10)), 0.1, -1.0 / 3.0, float(np.log(1e-5)), float(np.pi), -7.7, 1e-3, float(np.log(np.finfo(np.float32).tiny)))
 
 TARGETS = (
     # (name, suffix, key, compress)
@@ -68,6 +78,18 @@ def make_data(kind: str, T: int, F: int, seed: int, salt: str) -> np.ndarray:
         x = (-np.abs(z) - offs) * 1e5
     elif kind == "small":
         x = (z + offs) * 1e-4
+    elif kind in CONST_KINDS:
+        # log-energy-like data in which some (const_col*) or all (all_const*) coefficients never change
+        x = -np.abs(z) * 2.0 - 5.0 - offs
+        vals = [CONST_VALUES[j % len(CONST_VALUES)] if j < len(CONST_VALUES) else float(rng.uniform(-25.0, 5.0)) for j in range(F)]
+        vals[F - 1] = CONST_VALUES[0]  # the floor log(1e-10)
+        if F > 1:
+            vals[0] = float(rng.uniform(-25.0, 5.0))  # one seed-dependent value
+        cols = range(F) if kind.startswith("all_const") else [j for j in range(F) if j == F - 1 or j % 4 == 1]
+        for j in cols:
+            x[:, j] = vals[j]
+        if kind.endswith("32"):
+            x = x.astype(np.float32)
     else:
         raise ValueError(kind)
     return x
@@ -111,7 +133,9 @@ def first_unused(entries) -> str:
 
 def fresh_inputs(F: int, seed: int, kind: str):
     rng = _common.make_rng(seed, "c17fresh:%s" % kind)
-    base = make_data(kind, 6, F, seed, "fresh")
+    # features to transform are ordinary (non-constant) data also for the constant-coefficient kinds
+    base = make_data({"const_col": "negative", "all_const": "negative", "const_col32": "float32_negative", "all_const32": "float32_negative"}.get(kind, kind),
+                     6, F, seed, "fresh")
     return [
         ("matrix", base, -1),
         ("matrix_axis0", np.ascontiguousarray(base.T), 0),
@@ -371,6 +395,14 @@ def enumerate_cases(tier: str, seed: int):
         for t in TARGETS:
             yield dict(kind="history", target=t[0], seed=s, steps=[
                 dict(data=data, T=20, F=3), dict(data="positive" if data != "positive" else "negative", T=9, F=3, acc="split")])
+    # 1b. coefficients that are constant over the accumulated data (zero variance), every target, typical utterance lengths
+    for T in (50, 100, 333, 20):
+        for data in CONST_KINDS:
+            for t in TARGETS:
+                for acc, F, nv in (("whole", 3, True), ("rows", 13, True), ("split", 1, False)):
+                    if quick and T == 20 and acc != "whole":
+                        continue
+                    yield dict(kind="history", target=t[0], seed=s, steps=[dict(data=data, T=T, F=F, acc=acc, norm_var=nv)])
     # 2. flag pairs on pre-existing archives
     for pre in ("npz_other", "npz_arr0", "npz_samekey", "npz_compressed"):
         for tn in ("npz", "npz_key", "npz_c", "npz_key_c"):
@@ -460,8 +492,9 @@ def run(tier: str, seed: int) -> dict:
              "followed by an own-reader inspection of the file, a reload through Standardize(rfilename=...) and 5 apply() comparisons "
              "(flag_pair = the same history under overwrite True and False; no_stats = the ValueError clause). Every case is non-trivial "
              "(at least one vector accumulated, or the error clause)",
-        bound="targets: .npy, .npz x key{None,'k','stats/x',...} x compress, raw with suffixes .bin/.stats/.cmvn.dat/none; data: 8 kinds "
-              "(positive, negative log-energy-like, mixed, float32, float32 negative, 1e6 / 1e5 / 1e-4 scale); F in {1,2,3,4,13,40} and random <20; "
+        bound="targets: .npy, .npz x key{None,'k','stats/x',...} x compress, raw with suffixes .bin/.stats/.cmvn.dat/none; data: 12 kinds "
+              "(positive, negative log-energy-like, mixed, float32, float32 negative, 1e6 / 1e5 / 1e-4 scale, some / all coefficients constant "
+              "(zero variance; 8 fixed values incl. log(1e-10) + seeded ones) as float64 / float32, T in {20,50,100,333} on every target); F in {1,2,3,4,13,40} and random <20; "
               "T in 1..50; 4 accumulate histories; 4 kinds of pre-existing archive; histories of up to 4 saves",
         assumptions=["A-IO-CONTAINER", "A-NP-RED", "A-REAL"],
     )
